@@ -176,16 +176,19 @@ CLAIMS["C13"] = dict(
 
 CLAIMS["C04"].update(
     category="proof",
-    text="24 Lean theorems, for ALL states of the kernel model (not only reachable ones): "
+    text="30 Lean theorems. 24 for ALL states of the kernel model (not only reachable ones): "
          "_effectively_cancelled equals its declarative reading (first cancelled scope on the chain before "
          "any shield), shields block, monotonicity; _parent_cancellation_is_visible characterised; "
          "CancelScope.__exit__ swallows / re-raises the remainder / passes exactly according to "
          "(cancel_called, parent visibility, AnyIO-cancellation leaves), cancelled_caught is set exactly by "
          "an absorbing exit, other exceptions and the non-cancellation leaves of groups always pass, the "
-         "exit restores the task's scope pointer and removes the scope's timer. The statement that a "
-         "delivery only hits tasks whose chain is effectively cancelled (C04_deliver_sound, needs the "
-         "reachability invariant WF) is being proved; until then that clause rests on the trace validation "
-         "of every delivery against the model and on the oracle's reference semantics.",
+         "exit restores the task's scope pointer and removes the scope's timer. Plus 6 theorems "
+         "(Props/C04reach.lean) about delivery, under the reachability invariant WF: a delivery from a "
+         "cancelled scope o changes only tasks sitting in a scope that is effectively cancelled, that lies "
+         "in o's subtree with no shield and no other cancelled scope in between (C04_deliver_sound, "
+         "_subtree, _shield_blocks_delivery); every other task's record is untouched by the whole "
+         "callback (C04_deliver_contained, _contained_step over Reach). Trace validation of every delivery "
+         "against the model and the oracle's reference semantics tie this to the code.",
     technique="Lean 4 proofs about the kernel model's CancelScope functions + trace validation + reference oracle")
 CLAIMS["C06"].update(
     category="proof",
@@ -326,6 +329,27 @@ CLAIMS["C06"].update(
          "the scope (never missed), byDeadline is only ever set with deadline <= now on an entered, active "
          "scope (never early, never before entry), and after exit no handle exists and byDeadline can never "
          "change again along any event list (never after the scope was left).")
+CLAIMS["C03"].update(
+    category="proof",
+    text="14 Lean theorems over the kernel model. _deliver_cancellation is characterised exactly (under the "
+         "reachability invariants WF and BW): it returns 'retry' iff some not-done task sits in a scope "
+         "reachable downward from the cancelled scope through active, unshielded, uncancelled scopes, it "
+         "cancels exactly the tasks of those scopes that are started, not running, not already marked and "
+         "whose waiter is not done - a blocked one is woken with its future cancelled and its wake-up handle "
+         "queued, a runnable one gets _must_cancel - and leaves every other task unchanged "
+         "(C03_deliverGo_spec). For EVERY reachable state (C03_delivery_live): an active cancelled scope that "
+         "still has such a task has its delivery flag set and its delivery handle scheduled (ready or current "
+         "batch) - the level-triggered retry never stops early; F4 was a violation of exactly this and its "
+         "history is a decide example on the repaired model (restart on spawn, on exit of a shielded scope, "
+         "on shield := False). A delivery handle that runs reschedules itself iff still needed; a loop cycle "
+         "cannot begin before the current batch is drained (C03_cycle), a handle runs only from the batch; a "
+         "task spinning in checkpoint_if_cancelled never completes normally: it yields again or ends with "
+         "the cancellation (C03_chkif). C03_latency_partial joins the step-local links (scheduled delivery "
+         "-> blocked task woken with CancelledError on its next resume); the composition into a numeric "
+         "bound over arbitrary interleavings of the other callbacks of a cycle is not proved - the bound "
+         "(3 cycles, no clock advance) is measured on every generated history by the latency oracle.",
+    technique="Lean 4 invariant proof over the kernel LTS (latency composition partial) + trace validation "
+              "+ latency oracle")
 CLAIMS["C07"].update(
     category="proof",
     text="7 Lean theorems over the kernel model: started() on a pending/resolved/failed/cancelled start future "
@@ -410,7 +434,7 @@ def main() -> None:
         "checks": checks,
         "notes": "fix: commits in /repo (genuine defects F1-F7, see DESIGN.md section 4 and "
                  "known_findings.json): 4638e52 67841a0 5768bf9 6c88bdf 30b537a aa53644 4d3f7cb 42dfeea b9ceb54 "
-                 "b31d463 8e74f9e (F1-F11)",
+                 "b31d463 8e74f9e 17e7c0a (F1-F12)",
         "not_applicable": na,
     }
     (ROOT / "MANIFEST.json").write_text(json.dumps(manifest, indent=1) + "\n")
